@@ -75,6 +75,8 @@ def run(prog, rep):
     from .. import primitives as PR
     from .c01 import equivalence_discharge
     rep.attempt(PR.tdftype_primitives, prog, rep)
+    from ..staging import staging_dtypes
+    rep.attempt(staging_dtypes, prog, rep)
     equivalence_discharge(prog, cd, rep)
     # a decoded block reports the size of its bytes only if every stored attribute (incl. the format code the container
     # writes back) decodes to itself
